@@ -79,3 +79,39 @@ func TestRegressC15_BurstLowered(t *testing.T) {
 		t.Fatalf("C15: %d bytes forwarded at once after the burst was lowered to 100 bytes", total)
 	}
 }
+
+// C14-delay-filter-nil-peek (fixed by e1ae321): with delay 0 the forwarding
+// loop panicked within a few dozen arrivals.
+func TestRegressC14_ZeroDelay(t *testing.T) {
+	for round := 0; round < 30; round++ {
+		n := 0
+		sink := vnet.VerifNewSink(func(vnet.Chunk) { n++ })
+		f, _ := vnet.NewDelayFilter(sink, 0)
+		ctx, cancel := contextWithCancel()
+		done := make(chan any, 1)
+		go func() {
+			defer func() { done <- recover() }()
+			f.Run(ctx)
+		}()
+		sent := make(chan struct{})
+		go func() {
+			defer close(sent)
+			for i := 0; i < 200; i++ {
+				vnet.VerifInbound(f, vnet.VerifNewChunkUDP(srcAddr, dstAddr, []byte{byte(i)}))
+			}
+		}()
+		select {
+		case <-sent:
+		case p := <-done:
+			cancel()
+			t.Fatalf("C14: DelayFilter.Run ended with delay 0: %v", p)
+		case <-time.After(5 * time.Second):
+			cancel()
+			t.Fatalf("C14: senders blocked for 5 s with delay 0 (forwarding loop dead?)")
+		}
+		cancel()
+		if p := <-done; p != nil {
+			t.Fatalf("C14: DelayFilter.Run panicked with delay 0: %v", p)
+		}
+	}
+}
